@@ -138,6 +138,23 @@ def stats_of(events):
     return traces
 
 
+def design_only(v, sc, binary, tier):
+    """thorough tier: larger configurations are model-checked only (their state graphs are too big to dump and replay)"""
+    if tier != "thorough":
+        return
+    for cfg in (mk("p3fairbig", [3, 2, 1], 4, "fair", 1, 2), mk("p3ratebig", [3, 2, 1], 6, "rate", 1, 2), mk("p2ratebig", [2, 1], 3, "rate", 2, 4, unbuf=())):
+        sub = os.path.join(sc, "design-" + cfg["name"])
+        os.makedirs(sub, exist_ok=True)
+        stage_specs(sub)
+        cfgp, rows = pm.div_table(binary, cfg, sub)
+        name = pm.write_mc(sub, cfg, rows, invariants=INV_ALL)
+        r = tlc(sub, name, cfg=name + ".cfg", workers=14, timeout=2400)
+        if not r.ok:
+            raise Inconclusive("TLC: design-only configuration %s fails or did not finish\n%s" % (name, r.out[-2000:]))
+        v.add_tlc(r, "%s (design check only): %s" % (name, json.dumps({k: cfg[k] for k in ("prios", "H", "div", "incap", "items")})))
+        shutil.rmtree(sub, ignore_errors=True)
+
+
 def v2_property(pid, tier, cfgs, cont, nontrivial, rule, level="model_checking", quick_limit=600, thorough_limit=40000, extra=None, free=False, v1kinds=(), v1models=None, simple=False, v2rand=False):
     v = Verdict(pid, tier, level)
     rnd = random.Random(seed())
@@ -149,6 +166,8 @@ def v2_property(pid, tier, cfgs, cont, nontrivial, rule, level="model_checking",
         binary = os.path.join(sc, "prioh.test")
         build_test("prioh", binary)
         lap("built")
+        if pid in ("C01", "C02", "C07"):
+            v.attempt("design-only configurations", design_only, v, sc, binary, tier)
         files, jobs = [], []
         tot = dict(paths=0, steps=0, diverged=0, races=0)
         drift_samples = []
@@ -297,7 +316,7 @@ def summarize(pid, tr):
 def cfgs_basic(tier):
     c = [mk("p2rate", [2, 1], 3, "rate", 2, 2), mk("p3fair", [3, 2, 1], 3, "fair", 1, 1), mk("p2rev", [2, 1], 3, "rev", 2, 1)]
     if tier == "thorough":
-        c = [mk("p2rate", [2, 1], 3, "rate", 2, 3), mk("p3fair", [3, 2, 1], 4, "fair", 1, 2), mk("p2rev", [2, 1], 3, "rev", 2, 2),
+        c = [mk("p2rate", [2, 1], 3, "rate", 2, 3), mk("p3fair", [3, 2, 1], 4, "fair", 1, 1), mk("p2rev", [2, 1], 3, "rev", 2, 2),
              mk("p3rate", [3, 2, 1], 6, "rate", 1, 1), mk("p2fairlow", [2, 1], 3, "fairlow", 2, 2), mk("p2skew", [10, 1], 11, "rate", 1, 1)]
     return c
 
